@@ -10,6 +10,7 @@
 package main
 
 import (
+	"bytes"
 	"fmt"
 	"regexp"
 	"sort"
@@ -215,6 +216,13 @@ func genScript(g *vh.Gen, streams [][]byte) (script, ml, rl, msl string) {
 	}
 	sort.Strings(addrs)
 	var mail, rcpt, msg ruleSet
+	for _, s := range streams {
+		// the null reverse-path is a sender like any other: the hook is asked with session.from.address == ""
+		if bytes.Contains(s, []byte("<>")) && !seen[""] && g.Chance(0.7) {
+			seen[""] = true
+			smtpRule(g, "", &mail)
+		}
+	}
 	for _, a := range addrs {
 		if g.Chance(0.45) {
 			smtpRule(g, a, &mail)
